@@ -175,6 +175,14 @@ CHECKS = {
          'same options (variables, variable_names, singletons) and must give variant terms or errors of the same class.',
     note='Only agreement is asserted. All variables are named through variable_names/1 because write_term_to_chars/3 deliberately '
          'invents names for unnamed variables (documented design difference).'),
+ 'C49': dict(
+    level='exploration',
+    technique='runtime monitoring: reference model (mathematical relations on Python ints) incl. enumeration order, finite prefixes and documented errors',
+    text='between/3, length/2, numlist/2,3 and succ/2 are called in every instantiation mode with arguments from small integers, '
+         'values around 2^55 and 2^64, integers boxed through bignum arithmetic, floats, atoms and unbound variables; complete '
+         'enumerations (or the first 4 solutions of infinite ones), membership tests and error formals are compared with the model.',
+    note='Infinite enumerations compared on a finite prefix; succ/2 errors compared on "some error is raised" where the library '
+         'delegates to can_be/2.'),
 }
 
 NOT_APPLICABLE_REASON_UNBUILT = ('check designed in DESIGN.md but not built/validated yet in this session; '
